@@ -127,7 +127,7 @@ def run_shard(ctx):
     asm0 = ws.write("near.s", c14.NEAR)
     if ctx.shard == 0:
         arg_cases(ctx, ws, cwd, ws.write("ok.yaml", "pattern:\n  - push\n"), asm0, elfp)
-    n = ctx.share(230, 4000)
+    n = ctx.share(230, 8000)
     done = 0
     while done < n:
         r = rng.random()
